@@ -7,6 +7,7 @@ package kxps
 import (
 	"fmt"
 	"math"
+	"reflect"
 	"testing"
 	"time"
 )
@@ -228,7 +229,7 @@ func vC20Run(k *vKit, c vSx) (obs vSx, failOracle, failDetail string, nontrivial
 			t, cnt := op.l[1].i64(), op.l[2].u64()
 			_ = t
 			src.c = cnt
-			avgBefore, createBefore := imp.average, imp.create
+			snapBefore := vC20AvgState(imp)
 			src.live = true
 			var v float64
 			msg := vPanicText(func() {
@@ -245,8 +246,8 @@ func vC20Run(k *vKit, c vSx) (obs vSx, failOracle, failDetail string, nontrivial
 				out = append(out, vL(vZ(6), vZ(1), vU(math.Float64bits(v)), vZ(0)))
 				bad("refused", "Average() before start was not refused")
 			}
-			if imp.average != avgBefore || !imp.create.Equal(createBefore) {
-				bad("refused", fmt.Sprintf("a refused Average() changed the meter's state (baseline %d -> %d)", avgBefore, imp.average))
+			if snapAfter := vC20AvgState(imp); snapAfter != snapBefore {
+				bad("refused", fmt.Sprintf("a refused Average() changed the meter's state (%s -> %s)", snapBefore, snapAfter))
 			}
 		default:
 			out = append(out, vL(vZ(-1)))
@@ -416,4 +417,43 @@ func TestVerifC20Judge(t *testing.T) {
 		}
 		return ""
 	})
+}
+
+// vC20AvgState renders the meter's own top-level scalar state -- every uint64/int64/float64 field and every time.Time
+// field of the kxps struct (the average's baseline count and time among them) -- found by kind and type, not by name,
+// so that renaming those unexported fields does not break the harness. Aborts the run if there is no such field.
+func vC20AvgState(imp *kxps) string {
+	rv := reflect.ValueOf(imp).Elem()
+	out, n := "", 0
+	for i := 0; i < rv.NumField(); i++ {
+		f := rv.Field(i)
+		switch {
+		case f.Kind() == reflect.Uint64:
+			out += fmt.Sprintf("u%d=%d ", i, f.Uint())
+			n++
+		case f.Kind() == reflect.Int64:
+			out += fmt.Sprintf("i%d=%d ", i, f.Int())
+			n++
+		case f.Kind() == reflect.Float64:
+			out += fmt.Sprintf("f%d=%x ", i, math.Float64bits(f.Float()))
+			n++
+		case f.Type() == reflect.TypeOf(time.Time{}):
+			// wall seconds and nanoseconds through the unexported-safe accessors of reflect: compare the raw fields
+			out += fmt.Sprintf("t%d=", i)
+			for j := 0; j < f.NumField(); j++ {
+				switch f.Field(j).Kind() {
+				case reflect.Uint64:
+					out += fmt.Sprintf("%d.", f.Field(j).Uint())
+				case reflect.Int64:
+					out += fmt.Sprintf("%d.", f.Field(j).Int())
+				}
+			}
+			out += " "
+			n++
+		}
+	}
+	if n == 0 {
+		vAbort("cannot observe the average's baseline state of the meter")
+	}
+	return out
 }
